@@ -137,7 +137,7 @@ theorem linMul_sound {a o : Obj K} {Da : Mx K} (c : Scal K) (ha : Sound a Da)
     exact
     { lin := by simp
       evSz := by szt
-      adSz := by szt
+      adSz := fun y => ha.adSz _
       pl := by simp [PayloadIs, mkLin]
       ev := by
         intro x i
@@ -148,10 +148,26 @@ theorem linMul_sound {a o : Obj K} {Da : Mx K} (c : Scal K) (ha : Sound a Da)
         · simp [hi]
       ad := by
         intro y j
-        simp only [mkLin_adj, vmap_get, mkLin_m, mkLin_n]
-        rw [ha.ad y j]
+        simp only [mkLin_adj, mkLin_m, mkLin_n]
+        rw [ha.ad _ j]
         by_cases hj : j < a.n
-        · simp only [hj, if_true, conj_eq_star]; exact (mulVecH_smul _ _ _ _ _).symm
+        · simp only [hj, if_true]
+          rw [mulVecH_smul]
+          have hv : ∀ i, i < a.m → (toOutSpace a (vmap a.m (fun t => conj c.val * t) y)).get i = star c.val * y.get i := by
+            intro i hi
+            unfold toOutSpace
+            split
+            · simp [hi, conj_eq_star]
+            · rename_i hc
+              have hR : RealK K := by
+                rcases ha.mode with h | h
+                · exact h
+                · exact absurd h.outC hc
+              simp [hi, conj_eq_star, (hR _).2]
+          unfold mulVecH
+          rw [← sumTo_mul_left]
+          apply sumTo_congr; intro i hi
+          rw [hv i hi]; ring
         · simp [hj]
       mode := by
         rcases ha.mode with h | h
@@ -168,7 +184,7 @@ theorem linDiv_sound {a o : Obj K} {Da : Mx K} (c : Scal K) (ha : Sound a Da)
     exact
     { lin := by simp
       evSz := by szt
-      adSz := by szt
+      adSz := fun y => ha.adSz _
       pl := by simp [PayloadIs, mkLin]
       ev := by
         intro x i
@@ -179,10 +195,26 @@ theorem linDiv_sound {a o : Obj K} {Da : Mx K} (c : Scal K) (ha : Sound a Da)
         · simp [hi]
       ad := by
         intro y j
-        simp only [mkLin_adj, vmap_get, mkLin_m, mkLin_n]
-        rw [ha.ad y j]
+        simp only [mkLin_adj, mkLin_m, mkLin_n]
+        rw [ha.ad _ j]
         by_cases hj : j < a.n
-        · simp only [hj, if_true, conj_eq_star]; exact (mulVecH_sdiv _ _ _ _ _).symm
+        · simp only [hj, if_true]
+          rw [mulVecH_sdiv]
+          have hv : ∀ i, i < a.m → (toOutSpace a (vmap a.m (fun t => t / conj c.val) y)).get i = y.get i / star c.val := by
+            intro i hi
+            unfold toOutSpace
+            split
+            · simp [hi, conj_eq_star]
+            · rename_i hc
+              have hR : RealK K := by
+                rcases ha.mode with h | h
+                · exact h
+                · exact absurd h.outC hc
+              simp [hi, conj_eq_star, (hR _).2]
+          unfold mulVecH
+          rw [← sumTo_div]
+          apply sumTo_congr; intro i hi
+          rw [hv i hi]; ring
         · simp [hj]
       mode := by
         rcases ha.mode with h | h
